@@ -187,7 +187,7 @@ def main():
         return
     engine.build(['asan'])
     quick = ck.tier == 'quick'
-    depth = 3 if quick else 4
+    depth = 4 if quick else 5
     shards = []
     total_refusals = 0
     for name in ('i', 'il', 'n', 'f', 'fl', 'b', 'bl', 's', 'sl', 'mt'):
